@@ -434,3 +434,24 @@ Definition res_eqb (a b : res) : bool :=
   | ErrOther, ErrOther => true
   | _, _ => false
   end.
+
+(* One formula cell of the correspondence check. *)
+Inductive query : Type :=
+| QFind (o : op) (gkey : list (colid * val)) (order_by : list (list Z)) (sort_by : list Z) (probe : list val)
+| QPN (o : op) (group_by : list colid) (order_by : list (list Z)) (rec_id : Z).
+
+Definition eval_query (tbl : list trow) (hm : bool) (q : query) : res :=
+  match q with
+  | QFind o gkey order_by sort_by probe => eval_find o tbl hm gkey order_by sort_by probe
+  | QPN o group_by order_by rec_id => eval_prevnext o tbl hm group_by order_by rec_id
+  end.
+
+(* the hypotheses of the theorems, evaluated on a whole table: sort values of all rows and the probes are
+   mutually comparable column by column *)
+Definition domain_okb (tbl : list trow) (hm : bool) (order_by : list (list Z)) (sort_by : list Z)
+           (probes : list (list val)) : bool :=
+  let sspec := map split_col_spec (make_sort_spec order_by sort_by hm) in
+  match rows_of tbl (map fst sspec) with
+  | Some rows => all_comparable (probes ++ map rvals rows)
+  | None => false
+  end.
